@@ -58,6 +58,31 @@ class Plan:
         self.level = "model_checking"
 
 
+def add_edge_families(p, cfgname, edges):
+    """programs exported by TLC from a design-level model (ACTION_CONSTRAINT Export) become scenarios for the real code"""
+    progs = {True: [], False: []}
+    for e in edges:
+        try:
+            d = json.loads(e)
+        except ValueError:
+            continue        # a line torn by concurrent workers
+        progs[bool(d["cfg"].get("batch", True))].append(d)
+    for batch, lst in progs.items():
+        if not lst:
+            continue
+
+        def g(ids, rng, lst=lst):
+            out = []
+            ifaces = ["rec", "rec", "spi", "p8", "p16"]
+            for i, d in enumerate(lst):
+                c = d["cfg"]
+                cfg = gen.cfg("tiny565_%dx%d" % (c["W"], c["H"]), c["w"], c["h"], c["ox"], c["oy"], d["o0"]["rot"], d["o0"]["mir"],
+                              iface=ifaces[i % len(ifaces)], buf=rng.choice([2, 3, 4, 5, 64]), rst=True)
+                out.append(gen.scn(ids, cfg, [gen.INIT] + d["calls"], tag="mc-edge"))
+            return out
+        p.families.append(("tlc-programs-%s-%s" % (cfgname, "batch" if batch else "nobatch"), batch, "dev", g))
+
+
 def drawing_calls(sc):
     return [c for c in sc["calls"] if c["name"] in ("set_pixel", "set_pixels", "draw_iter", "fill_solid",
                                                     "fill_contiguous", "clear", "test_image")]
@@ -67,7 +92,9 @@ def plan_for(prop, tier, seed):
     q = tier == "quick"
     p = Plan(prop)
     G = gen
+    MCP = "MC_Placement"
     if prop == "C01":
+        p.mc = [(MCP, "MC_Placement_in_q" if q else "MC_Placement_in_t", 12, 3000, None)]
         p.rule = ("scenario = configuration (model, window, orientation, transport, SPI buffer) + program; non-trivial: "
                   "the program contains at least 3 in-bounds drawing calls through at least 2 different entry points")
         p.nontrivial = lambda sc: len(drawing_calls(sc)) >= 3 and len({c["name"] for c in drawing_calls(sc)}) >= 2
@@ -78,6 +105,7 @@ def plan_for(prop, tier, seed):
             ("smallalpha", True, "dev", lambda ids, rng: G.f_small_alphabet(ids, rng, 500 if q else 8000, ifaces=("spi", "spi", "p8", "p16", "rec"))),
         ]
     elif prop == "C02":
+        p.mc = [(MCP, "MC_Placement_oob_q" if q else "MC_Placement_oob_t", 12, 3000, None)]
         p.rule = ("scenario = configuration + program of DrawTarget calls; non-trivial: at least one call carries an argument "
                   "outside the bounding box (negative, >= width/height, >= 65536 or an i32 extreme)")
         p.nontrivial = lambda sc: any(_has_oob(sc, c) for c in sc["calls"])
@@ -110,6 +138,7 @@ def plan_for(prop, tier, seed):
             ("contig-real", True, "dev", lambda ids, rng: G.f_oob_rects(ids, rng, G.real_model_list(rng, ["st7789", "ili9486_666"] if q else None, full=not q), n_per_cfg=5, ifaces=("rec",))),
         ]
     elif prop == "C08":
+        p.mc = [(MCP, "MC_Placement_re_q" if q else "MC_Placement_d2_t", 12, 3000, None)]
         p.rule = ("scenario = configuration + drawing program (all entry points, in- and out-of-bounds); non-trivial: at least "
                   "one drawing call that emits a pixel burst")
         p.nontrivial = lambda sc: len(drawing_calls(sc)) >= 1
@@ -123,6 +152,7 @@ def plan_for(prop, tier, seed):
             ("oob-rects", True, "dev", lambda ids, rng: G.f_oob_rects(ids, rng, G.tiny_model_list(small, rng, 3 if q else 30), ifaces=("rec",))),
         ]
     elif prop == "C10":
+        p.mc = [(MCP, "MC_Placement_re_q" if q else "MC_Placement_d2_q", 12, 3000, None)]
         p.rule = ("scenario = initial configuration + sequence of set_orientation calls, each followed by corner pixels, a "
                   "clipped fill, a clipped contiguous fill and a stream; non-trivial: at least one orientation change to a "
                   "different orientation")
@@ -394,9 +424,14 @@ def check(prop, tier, seed):
         mc_res = []
         for (module, cfgname, workers, timeout, env) in p.mc:
             r = run.run_mc(module, workdir, workers=workers, timeout=timeout, cfg=cfgname, env=env)
-            log("[%s] design-level model %s/%s: %d distinct states, %d transitions, %.1fs"
-                % (prop, module, cfgname, r["states"], r["transitions"], r["wall_s"]))
+            edges = r["tags"].get("EDGE", [])
+            log("[%s] design-level model %s/%s: %d distinct states, %d transitions, %d exported programs, %.1fs"
+                % (prop, module, cfgname, r["states"], r["transitions"], len(edges), r["wall_s"]))
+            r["module"] = "%s/%s" % (module, cfgname)
+            r["exported_programs"] = len(edges)
             mc_res.append(r)
+            if edges:
+                add_edge_families(p, cfgname, edges)
         by_id, viol, stat, tstates, ttrans, fam_info = execute_families(p, seed, workdir)
         new_by_scn, known_hits, others = verdicts(prop, by_id, viol)
         for line, vs in known_hits.items():
